@@ -48,6 +48,16 @@ func genC11(rt *rapid.T) C11Case {
 
 func monC11(rep Rep, v *View) (flagged bool) {
 	uid := string(v.Set.UID)
+	// stale cache: the set already carried a deletion timestamp in the API when this reconcile started.
+	// The uncached re-check before adoption must then have seen it: no adoption of pods or revisions.
+	if sb := v.Rec.SetBefore; sb != nil && sb.UID == v.Set.UID && sb.DeletionTimestamp != nil && !v.Deleting {
+		for _, a := range v.Rec.Actions {
+			if a.Verb == "patch" && a.Err == nil && isAdoptPatch(a, uid) {
+				rep.Violate("deleting/adopted-despite-deletion-in-api", "the set carried a deletion timestamp in the API (the cache was stale) but %s adopted an object%s", a, ctx(v))
+			}
+		}
+		flagged = true
+	}
 	if v.Paused {
 		for _, a := range v.Rec.Actions {
 			if a.IsWrite() {
@@ -57,7 +67,7 @@ func monC11(rep Rep, v *View) (flagged bool) {
 		return true
 	}
 	if !v.Deleting {
-		return false
+		return flagged
 	}
 	for _, a := range v.Rec.Actions {
 		if !a.IsWrite() {
